@@ -78,6 +78,16 @@ def fnv64 (s : String) : Nat :=
 /-- the key of a site / table row: hash of `<identity>#<flag>+<flag>…` -/
 def siteKey (id : String) (cls : List String) : Nat := fnv64 (id ++ "#" ++ "+".intercalate cls)
 
+/-- THE GENERIC RULE.  A map walk of the shape "append the keys (or the values) to a fresh local
+    slice of strings / integers / floats, then sort that slice with a LIBRARY sort by the natural order
+    (sort.Strings / Ints / Float64s, slices.Sort, slices.Sorted(maps.Keys m)) before any other use" is
+    order insensitive wherever it lives (theorem `BMV.Props.C07.sorted_after_det`: sorting a
+    permutation gives the same list).  The extractor recognises the shape (class `sortedkeys`) and
+    gives every such site this one key = `siteKey "*" ["sortedkeys"]`; such sites need no table row,
+    so moving the code into a helper or between functions changes nothing.  Sorts with a custom
+    comparator never qualify (kind `sortcmp`, reviewed by hand). -/
+def sortedKeysKey : Nat := 0xdb9074ea89132dc3
+
 /-! ## concrete models of the Go loops (each cites file:function) -/
 
 /-- pkg/bmnumbers/import.go:ImportString
